@@ -20,10 +20,10 @@ def regenerate(module, trace):
             if r.get("ots"):
                 c["allot"] = True
             calls.append(c)
-        return drive.run_part_group({"vals": trace["vals"], "k": trace["k"], "calls": calls})
+        return drive.run_part_group({"vals": trace["vals"], "k": trace["k"], "mul": trace.get("mul", 1), "calls": calls})
     if module in ("JPack",):
         calls = [dict(pcall(r["alg"], r.get("fmt", "list"), extra=(r.get("bcout", "skip") != "skip")), allot=bool(r.get("ots"))) for r in trace["res"]]
-        return drive.run_pack_group({"vals": trace["vals"], "C": trace["C"], "den": trace.get("den", 1), "orc": trace.get("orc", 1), "calls": calls})
+        return drive.run_pack_group({"vals": trace["vals"], "C": trace["C"], "den": trace.get("den", 1), "mul": trace.get("mul", 1), "orc": trace.get("orc", 1), "calls": calls})
     if module == "JBinner":
         ops = [{k: o[k] for k in ("op", "a", "b", "i", "j", "n", "it")} for o in trace["ops"]]
         return drive.run_binner_hist({"ops": ops, "mgr": trace["mgr"], "ns": trace.get("ns", 3)})
